@@ -39,6 +39,7 @@ def main(argv=None):
     e = sub.add_parser('_events')
     e.add_argument('--prop'); e.add_argument('--tier'); e.add_argument('--seed', type=int)
     e.add_argument('--run', type=int)
+    e.add_argument('--runs', default='')
     q = sub.add_parser('_seq')
     q.add_argument('--prop'); q.add_argument('--tier'); q.add_argument('--seed', type=int)
     q.add_argument('--runs'); q.add_argument('--sig', default='')
